@@ -156,6 +156,7 @@ def install(g, pid, *, text, note, technique, quick, thorough, mons=None, forces
                 res["disagreements"] += more.get("disagreements", [])
                 res["evaluations"] += more.get("evaluations", 0)
                 res["distinct_nontrivial"] += more.get("distinct_nontrivial", 0)
+                res["traces_validated_against_impl"] += more.get("validated", 0)
                 res.setdefault("notes", {}).update(more.get("notes", {}))
                 res["samples"] += more.get("samples", [])[:3]
         return res
